@@ -23,6 +23,7 @@ type AttrCache struct {
 	maxSize        int           // Maximum number of entries in the cache
 	accessList     *list.List    // Doubly-linked list for O(1) LRU tracking
 	enableNegative bool          // Enable negative caching
+	gen            uint64        // bumped by every invalidation (see Generation)
 }
 
 // CachedAttrs represents cached file attributes with expiration
@@ -56,6 +57,7 @@ func (c *AttrCache) ConfigureNegativeCaching(enable bool, ttl time.Duration) {
 	defer c.mu.Unlock()
 
 	if !enable {
+		c.gen++
 		// Negative entries exist only while negative caching is enabled:
 		// drop the ones stored so far so that they are no longer served.
 		for path, cached := range c.cache {
@@ -69,6 +71,37 @@ func (c *AttrCache) ConfigureNegativeCaching(enable bool, ttl time.Duration) {
 	if ttl > 0 {
 		c.negativeTTL = ttl
 	}
+}
+
+// Generation returns a counter that every invalidation advances. A caller that
+// is about to read the backend in order to fill the cache takes the generation
+// first and stores the result with PutIfCurrent / PutNegativeIfCurrent: if an
+// invalidation happened in between, what was read may already be out of date
+// and is not cached (it would otherwise stay, stale, for a whole TTL).
+func (c *AttrCache) Generation() uint64 {
+	c.mu.RLock()
+	defer c.mu.RUnlock()
+	return c.gen
+}
+
+// PutIfCurrent is Put unless an invalidation happened since gen was taken.
+func (c *AttrCache) PutIfCurrent(path string, attrs *NFSAttrs, gen uint64) {
+	c.mu.Lock()
+	defer c.mu.Unlock()
+	if c.gen != gen {
+		return
+	}
+	c.putLocked(path, attrs)
+}
+
+// PutNegativeIfCurrent is PutNegative unless an invalidation happened since gen was taken.
+func (c *AttrCache) PutNegativeIfCurrent(path string, gen uint64) {
+	c.mu.Lock()
+	defer c.mu.Unlock()
+	if c.gen != gen || !c.enableNegative {
+		return
+	}
+	c.putNegativeLocked(path, c.negativeTTL)
 }
 
 // Get retrieves cached attributes if they exist and are not expired.
@@ -204,7 +237,11 @@ func (c *AttrCache) removeFromAccessLog(path string) {
 func (c *AttrCache) Put(path string, attrs *NFSAttrs) {
 	c.mu.Lock()
 	defer c.mu.Unlock()
+	c.putLocked(path, attrs)
+}
 
+// putLocked stores attrs for path. Caller holds the write lock.
+func (c *AttrCache) putLocked(path string, attrs *NFSAttrs) {
 	// Check if entry already exists
 	existing, exists := c.cache[path]
 
@@ -266,7 +303,11 @@ func (c *AttrCache) PutNegative(path string) {
 
 	c.mu.Lock()
 	defer c.mu.Unlock()
+	c.putNegativeLocked(path, negativeTTL)
+}
 
+// putNegativeLocked stores a negative entry for path. Caller holds the write lock.
+func (c *AttrCache) putNegativeLocked(path string, negativeTTL time.Duration) {
 	// Check if entry already exists
 	existing, exists := c.cache[path]
 
@@ -308,6 +349,7 @@ func (c *AttrCache) Invalidate(path string) {
 	c.mu.Lock()
 	defer c.mu.Unlock()
 
+	c.gen++
 	c.removeFromAccessLog(path)
 	delete(c.cache, path)
 }
@@ -319,6 +361,7 @@ func (c *AttrCache) InvalidateSubtree(path string) {
 	c.mu.Lock()
 	defer c.mu.Unlock()
 
+	c.gen++
 	prefix := path
 	if !strings.HasSuffix(prefix, "/") {
 		prefix += "/"
@@ -336,6 +379,7 @@ func (c *AttrCache) Clear() {
 	c.mu.Lock()
 	defer c.mu.Unlock()
 
+	c.gen++
 	c.cache = make(map[string]*CachedAttrs)
 	c.accessList = list.New()
 }
@@ -383,6 +427,8 @@ func (c *AttrCache) NegativeStats() int {
 func (c *AttrCache) InvalidateNegativeInDir(dirPath string) {
 	c.mu.Lock()
 	defer c.mu.Unlock()
+
+	c.gen++
 
 	// Find all negative entries that are children of this directory
 	toDelete := make([]string, 0)
@@ -494,6 +540,7 @@ type DirCache struct {
 	maxDirSize int
 	hits       uint64
 	misses     uint64
+	gen        uint64 // bumped by every invalidation (see Generation)
 }
 
 // CachedDirEntry represents cached directory entries with expiration
@@ -567,11 +614,35 @@ func (c *DirCache) Get(path string) ([]os.FileInfo, bool) {
 	return entries, true
 }
 
+// Generation returns a counter that every invalidation advances (see
+// AttrCache.Generation): a listing read from the backend is stored with
+// PutIfCurrent so that it is dropped if the directory cache was invalidated
+// while it was being read.
+func (c *DirCache) Generation() uint64 {
+	c.mu.RLock()
+	defer c.mu.RUnlock()
+	return c.gen
+}
+
+// PutIfCurrent is Put unless an invalidation happened since gen was taken.
+func (c *DirCache) PutIfCurrent(path string, entries []os.FileInfo, gen uint64) {
+	c.mu.Lock()
+	defer c.mu.Unlock()
+	if c.gen != gen {
+		return
+	}
+	c.putLocked(path, entries)
+}
+
 // Put adds or updates cached directory entries
 func (c *DirCache) Put(path string, entries []os.FileInfo) {
 	c.mu.Lock()
 	defer c.mu.Unlock()
+	c.putLocked(path, entries)
+}
 
+// putLocked stores the listing of path. Caller holds the write lock.
+func (c *DirCache) putLocked(path string, entries []os.FileInfo) {
 	// Don't cache directories that exceed the maximum size
 	if len(entries) > c.maxDirSize {
 		return
@@ -645,6 +716,7 @@ func (c *DirCache) Invalidate(path string) {
 	c.mu.Lock()
 	defer c.mu.Unlock()
 
+	c.gen++
 	c.removeFromAccessList(path)
 	delete(c.entries, path)
 }
@@ -654,6 +726,7 @@ func (c *DirCache) InvalidateSubtree(path string) {
 	c.mu.Lock()
 	defer c.mu.Unlock()
 
+	c.gen++
 	prefix := path
 	if !strings.HasSuffix(prefix, "/") {
 		prefix += "/"
@@ -671,6 +744,7 @@ func (c *DirCache) Clear() {
 	c.mu.Lock()
 	defer c.mu.Unlock()
 
+	c.gen++
 	c.entries = make(map[string]*CachedDirEntry)
 	c.accessList = list.New()
 }
